@@ -19,6 +19,27 @@ func simRunT(t *testing.T, in simIn) (out simOut) {
 func TestVerifC07(t *testing.T) {
 	o := vk.Open()
 	m := vk.NewMeta()
+	var rpr struct {
+		Resume *mgrIn `json:"resume"`
+	}
+	if vk.ReplayInput(&rpr) && rpr.Resume != nil {
+		in := *rpr.Resume
+		var out mgrOut
+		synctest.Test(t, func(t *testing.T) { out = mgrRun(in) })
+		if len(out.Steps) > 0 {
+			last := out.Steps[len(out.Steps)-1]
+			master := mgrMasterIn(last.TreeAfter)
+			n2 := last.WorldAfter["h2"]
+			_, pending := last.TreeAfter[pathCurrentSwitch]
+			if master != "h2" || n2.RO || pending {
+				m.Violation("after the managing process died at any point of a switchover the next manager finishes or rejects the request and the cluster ends with one writable master equal to the recorded one",
+					map[string]any{"resume": in}, fmt.Sprintf("recorded master %q, h2 read_only=%v, request pending=%v", master, n2.RO, pending))
+			}
+		}
+		m.Evaluations = 1
+		o.WriteMeta("c07", m)
+		return
+	}
 	var rp simIn
 	if vk.ReplayInput(&rp) && rp.N > 0 {
 		out := simRunT(t, rp)
@@ -28,6 +49,32 @@ func TestVerifC07(t *testing.T) {
 		m.Evaluations = 1
 		o.WriteMeta("c07", m)
 		return
+	}
+	// the successor on the SAME host (in the simulation another host usually wins the lock): a failover that the previous
+	// process of this host started and left after RESET REPLICA ALL on the promoted node - the only other node; the request
+	// is resumed and finished, the recorded master is the promoted node and it is writable
+	for _, semi := range []bool{false, true} {
+		for _, startedBy := range []string{"h2", "h1"} {
+			in := mgrIn{Master: "h1", Iter: 4, Gap: 5, FaultAt: -1, LockLostAt: -1, Active: []string{"h1", "h2"}, MgrHost: 2,
+				Cfg:    mgrCfg{Failover: true, Delay: 0, Cooldown: 0, Timeout: 300, MaxAttempts: 3, SemiSync: semi, DisableSSOnMaint: true},
+				Nodes:  []mgrNode{{Down: true, Health: "pingfail"}, {NoChan: true}},
+				Switch: &mgrSwitch{From: "h1", Cause: CauseAuto, Transition: "failover", InitiatedAgo: 3, StartedBy: startedBy}}
+			var out mgrOut
+			synctest.Test(t, func(t *testing.T) { out = mgrRun(in) })
+			m.Evaluations++
+			m.Count("same_host_resume")
+			if len(out.Steps) == 0 {
+				continue
+			}
+			last := out.Steps[len(out.Steps)-1]
+			master := mgrMasterIn(last.TreeAfter)
+			n2 := last.WorldAfter["h2"]
+			_, pending := last.TreeAfter[pathCurrentSwitch]
+			if master != "h2" || n2.RO || pending {
+				m.Violation("after the managing process died at any point of a switchover the next manager finishes or rejects the request and the cluster ends with one writable master equal to the recorded one",
+					map[string]any{"resume": in}, fmt.Sprintf("after %d iterations of the successor on h2: recorded master %q, h2 read_only=%v, request pending=%v", len(out.Steps), master, n2.RO, pending))
+			}
+		}
 	}
 	dist := vk.Distinct{}
 	steps := &simCases{o: o, m: m, prefix: "c07s", checker: "mismatches_mgr"}
@@ -80,7 +127,8 @@ func TestVerifC07(t *testing.T) {
 		for k := 1 + si%stride; k <= total+1; k += stride {
 			ks = append(ks, k)
 		}
-		if stride > 1 && sh.N == 3 && !sh.NoSemiSync && sh.Duration < 1000 {
+		if stride > 1 && (sh.N == 3 && !sh.NoSemiSync && sh.Duration < 1000 || sh.N == 2 && sh.NextSame && sh.Fault == "crash_node") {
+			// ... and on the two-node failover whose next manager is the same host (it resumes its own started request)
 			// the bookkeeping at the end of the procedure (recorded master, request removal, outcome) densely
 			// (quick tier: on the 3-node semi-sync shapes; the thorough tier takes every crash point of every shape)
 			for k := max(1, total-24); k <= total+1; k++ {
